@@ -318,9 +318,27 @@ def validate_h5(seed=0):
     return n
 
 
-def run_all(seed=0):
+def validate_instrumentation(repo=None):
+    """the repository's own test suite, run against the AST-instrumented modules (real libraries): must all pass"""
+    import os, re, subprocess, sys
+    repo = repo or os.environ.get('VERIF_REPO', '/repo')
+    root = os.path.dirname(os.path.dirname(os.path.dirname(os.path.abspath(__file__))))
+    env = dict(os.environ, PYTHONPATH=root + os.pathsep + repo, VERIF_REPO=repo)
+    p = subprocess.run([sys.executable, '-m', 'pytest', '-q', '-p', 'no:cacheprovider', '-p', 'sx.instr_plugin', 'biom/tests'],
+                       cwd=repo, env=env, capture_output=True, text=True, timeout=1200)
+    tail = (p.stdout.strip().splitlines() or [''])[-1]
+    m = re.search(r'(\d+) passed', tail)
+    failed = re.search(r'(\d+) failed', tail)
+    if not m or failed or 'error' in tail.lower():
+        raise ModelMismatch(f"repository test suite through the instrumenting loader: {tail}")
+    return int(m.group(1))
+
+
+def run_all(seed=0, tier='quick'):
     import time
     t = time.time()
     out = {'sparse_rounds': validate_sparse(seed, 40), 'pyx_cases': validate_pyx(seed, 16), 'h5_cases': validate_h5(seed)}
+    if tier == 'thorough':
+        out['repo_tests_passing_through_instrumenting_loader'] = validate_instrumentation()
     out['wall_s'] = round(time.time() - t, 2)
     return out
